@@ -58,7 +58,7 @@ IDXPOOL = ["ia", "ib", "ic"]
 def _component(draw, name, cid, p, backend, column=True, plain=False):
     dts = ["int", "float", "str", "dt", "none"] if backend == "pandas" else ["int", "float", "str"]
     dtype = draw(st.sampled_from(dts))
-    flag = lambda q=p: draw(st.floats(0, 1)) < q  # noqa: E731
+    flag = lambda q=p: draw(st.integers(0, 999)) < q * 1000  # noqa: E731
     vocab = M.checks_for(dtype, backend)
     checks = draw(st.lists(st.sampled_from(vocab), max_size=2, unique=True)) if flag(0.6) else []
     c = {
@@ -89,7 +89,7 @@ def _nondefault(comp):
 
 @st.composite
 def programs(draw, backend="pandas"):
-    plain = draw(st.floats(0, 1)) < 0.35
+    plain = draw(st.integers(0, 99)) < 35
     p = draw(st.sampled_from([0.15, 0.5]))
     nrows = draw(st.integers(1, 4))
     ncols = draw(st.integers(1, 4))
@@ -102,11 +102,11 @@ def programs(draw, backend="pandas"):
         if nlev == 1:
             index = levels[0]
         elif nlev >= 2:
-            rich = (not plain) and draw(st.floats(0, 1)) < 0.3
+            rich = (not plain) and draw(st.integers(0, 99)) < 30
             index = {"levels": levels, "coerce": rich and draw(st.booleans()), "strict": rich and draw(st.booleans()),
                      "name": "mi" if rich and draw(st.booleans()) else None,
                      "ordered": not (rich and draw(st.booleans())), "unique": None}
-    flag = lambda q: draw(st.floats(0, 1)) < q  # noqa: E731
+    flag = lambda q: draw(st.integers(0, 999)) < q * 1000  # noqa: E731
     unique = None
     if not plain and ncols >= 2 and flag(0.35):
         k = draw(st.integers(2, min(3, ncols)))
@@ -124,7 +124,7 @@ def programs(draw, backend="pandas"):
     }
 
     # ---- requests, drawn against the simulated schema
-    nops = draw(st.integers(1, 5))
+    nops = draw(st.sampled_from([1, 2, 2, 3, 3, 4, 5]))
     ops = []
     cur = spec
     kinds = ["add_columns", "remove_columns", "select_columns", "rename_columns", "update_column", "update_columns"]
@@ -505,11 +505,34 @@ def _survives(spec, breaker, members):
     return any(c["id"] == breaker["target"] for c in M.components(spec))
 
 
+_WARM = set()
+
+
+def _warmup(backend):
+    """Register the validation backends before any schema is built.  DataFrameSchema.__init__ deep-copies its
+    columns, a deep-copied built-in Check carries a *copy* of the process-wide Dispatcher, and Check.__eq__
+    compares the byte code of every implementation registered in it: schemas built before and after the lazy
+    backend registration would compare unequal for a reason that has nothing to do with transformations."""
+    if backend in _WARM:
+        return
+    import pandas as pd
+    import pandera as pa
+
+    pa.DataFrameSchema({"a": pa.Column(int, pa.Check.ge(0))}, index=pa.Index(int)).validate(pd.DataFrame({"a": [1]}))
+    if backend == "polars":
+        import pandera.polars as pap
+        import polars as pl
+
+        pap.DataFrameSchema({"a": pap.Column(pl.Int64, pa.Check.ge(0))}).validate(pl.DataFrame({"a": [1]}))
+    _WARM.add(backend)
+
+
 def evaluate(case):
     import pandera.errors as pe
 
     ev = Eval()
     backend = case.get("backend", "pandas")
+    _warmup(backend)
     nrows = case["nrows"]
     spec = copy.deepcopy(case["schema"])
     ev.labels += [f"backend={backend}", "profile=" + case.get("profile", "?")]
@@ -649,17 +672,29 @@ def evaluate(case):
                     except Exception:
                         Dbad = None
         if verdicts_on and R is not None:
+            E_v = M.build_schema(new_spec, backend)
+
+            def unrelated(outcome, frame):
+                # a crash inside validate that the constructor-built expected schema shows as well is a
+                # validation-path defect (error formatting etc.), not an effect of the transformation
+                if outcome in ("accept", "reject"):
+                    return False
+                if verdict(E_v, frame)[0] == outcome:
+                    ev.labels.append("validate-crash-unrelated")
+                    return True
+                return False
+
             v, why = verdict(R, D)
             if v == "reject":
                 ev.add(f"{k}:accepted-frame-rejected-after", {"step": step, "op": op, "reasons": why})
-            elif v != "accept":
+            elif v != "accept" and not unrelated(v, D):
                 ev.add(f"{k}:validate-error-after", {"step": step, "op": op, "outcome": v, "why": why})
             if Dbad is not None:
                 ev.labels.append("converse-tracked")
                 vb, whyb = verdict(R, Dbad)
                 if vb == "accept":
                     ev.add(f"{k}:rejected-frame-accepted-after", {"step": step, "op": op, "breaker": breaker})
-                elif vb != "reject":
+                elif vb != "reject" and not unrelated(vb, Dbad):
                     ev.add(f"{k}:validate-error-after(bad-frame)", {"step": step, "op": op, "outcome": vb, "why": whyb})
 
         # ---- next state: pandera's own result when it is exactly the expected schema, else resync to the model
@@ -841,8 +876,11 @@ def _k_rename_unique(family, case, disc):
     if what == "schema.unique":
         return d.get("observed") == json.dumps(uniq)  # left exactly as it was
     if what in ("validate-error-after", "validate-error-after(bad-frame)"):
-        # every member renamed: pandas duplicated(subset=[]) / polars unique over no column
-        return all(u in renamed for u in uniq)
+        # the shrunken constraint either crashes (every member renamed: pandas duplicated(subset=[]), polars unique
+        # over a missing column) or fails and then crashes while formatting its single-column failure cases
+        why = str(d.get("why"))
+        return any(w in why for w in ("check_column_values_are_unique", "reshape_failure_cases",
+                                      "failure_cases_metadata", "check_column_values_are_unique"))
     if what == "accepted-frame-rejected-after":
         return "DUPLICATES" in (d.get("reasons") or [])
     if what == "rejected-frame-accepted-after":
